@@ -135,24 +135,61 @@ def h_written_parameters_win(ctx):
 def e_literal_text_verbatim(ctx, rule="C04.e.literal-text-verbatim", EVAL=EVAL):
     """`equal scalars`: the text of a string literal written in a statement is data.  eval_expression rewrites `$name` to `var_name` before it evaluates; done over the whole
     expression text this also rewrites the inside of string literals - `match ...(final_transcript="how much is $AAPL today")` then waits for "how much is var_AAPL today"
-    and never matches the equal transcript (F124; the same evaluator binds arguments, defaults and return values, see C08).  The substitution must skip string literals."""
+    and never matches the equal transcript (F124; the same evaluator binds arguments, defaults and return values, see C08).  The substitution must skip string literals.
+    The pattern is a constant (possibly spread over named pieces, possibly pre-compiled at module level): it is folded and EVALUATED on a probe expression."""
     t = ctx.tree.ast(EVAL)
     fn = find_function(t, "eval_expression")
     if fn is None:
         raise AnalysisError("eval_expression not found", anchor=EVAL + "::eval_expression")
-    subs = [c for c in walk_no_nested(fn) if isinstance(c, ast.Call) and src(c.func) == "re.sub" and len(c.args) >= 3 and (
-        "var_" in src(c.args[1]) or (isinstance(c.args[1], ast.Name) and any(
-            isinstance(f, (ast.FunctionDef, ast.Lambda)) and getattr(f, "name", None) == c.args[1].id and "var_" in src(f) for f in ast.walk(fn))))]
+    from ..source import module_const
+
+    def fold(e, depth=0):
+        if depth > 5:
+            return None
+        if isinstance(e, ast.Constant) and isinstance(e.value, str):
+            return e.value
+        if isinstance(e, ast.BinOp) and isinstance(e.op, ast.Add):
+            l, r = fold(e.left, depth + 1), fold(e.right, depth + 1)
+            return l + r if l is not None and r is not None else None
+        if isinstance(e, ast.Name):
+            loc = [a_ for a_ in ast.walk(fn) if isinstance(a_, ast.Assign) and len(a_.targets) == 1 and isinstance(a_.targets[0], ast.Name) and a_.targets[0].id == e.id]
+            if len(loc) == 1:
+                return fold(loc[0].value, depth + 1)
+            v = module_const(t, e.id)
+            return fold(v, depth + 1) if v is not None else None
+        return None
+
+    def repl_rewrites(r_):
+        return "var_" in src(r_) or (isinstance(r_, ast.Name) and any(
+            isinstance(f, (ast.FunctionDef, ast.Lambda)) and getattr(f, "name", None) == r_.id and "var_" in src(f) for f in ast.walk(fn)))
+    subs = []      # (call, pattern expression)
+    for c in walk_no_nested(fn):
+        if not (isinstance(c, ast.Call) and isinstance(c.func, ast.Attribute) and c.func.attr == "sub"):
+            continue
+        if src(c.func.value) == "re" and len(c.args) >= 3 and repl_rewrites(c.args[1]):
+            subs.append((c, c.args[0]))
+        elif isinstance(c.func.value, ast.Name) and len(c.args) >= 2 and repl_rewrites(c.args[0]):
+            v = module_const(t, c.func.value.id)
+            if isinstance(v, ast.Call) and src(v.func) in ("re.compile", "compile") and v.args:
+                subs.append((c, v.args[0]))
     ctx.floor(rule, EVAL, "rewriting of `$name` into evaluator names", len(subs), 1)
-    for c in subs:
-        pat = c.args[0]
-        txt = src(pat)
-        # the pattern also matches whole string literals (so that they can be returned unchanged), or the substitution runs on the non-literal segments only
-        skips = "string_pattern" in txt or any(isinstance(x, ast.Name) and "string" in x.id.lower() for x in ast.walk(pat))
+    for c, pat in subs:
+        txt = fold(pat)
+        if txt is not None:
+            try:
+                ms = [m.group(0) for m in re.finditer(txt, 'f($a, "keep $b here", \'and $c\') + $d')]
+                skips = '"keep $b here"' in ms and "'and $c'" in ms and "$b" not in ms and "$c" not in ms and "$a" in ms and "$d" in ms
+                how = "evaluated on a probe: %s" % ms
+            except re.error as e:
+                skips, how = False, "pattern does not compile: %s" % e
+        else:
+            ptxt = src(pat)
+            skips = "string_pattern" in ptxt.lower() or any(isinstance(x, ast.Name) and "string" in x.id.lower() for x in ast.walk(pat))
+            how = "pattern not constant-foldable; judged by its parts"
         ctx.check(rule, EVAL, "eval_expression", "`$name` is rewritten outside string literals only", skips,
-                  "the rewriting pattern matches string literals as a whole and leaves them unchanged" if skips else
+                  "the rewriting pattern matches string literals as a whole and leaves them unchanged (%s)" % how if skips else
                   "`%s` rewrites `$name` everywhere in the expression text, also inside string literals: a written string that contains `$word` is compared (bound, returned) as "
-                  "`var_word`" % first_line(c, 70), line=c.lineno)
+                  "`var_word` (%s)" % (first_line(c, 70), how), line=c.lineno)
 
 
 def find_arg_matcher(t):
